@@ -13,6 +13,7 @@ from internal/encoding/yaml/encode.go (the yaml.v3 based encoder): shouldQuote.
 NOT modelled (third-party code, parameters of the model, values supplied by the harness):
   * `Lex` — what goccy's `lexer.Tokenize` says about a text (one token? which type? value
     unchanged?), consulted by `decodesAsNonString` and, in context, by the decoder;
+  * `IsPrint` — Go's `unicode.IsPrint`, consulted by `yamlUnprintable` since /repo fb65e27;
   * `libq` — goccy's own `token.IsNeedQuoted`, applied by the library to every string the
     in-repo code hands over unquoted;
   * emission and parsing of mappings, sequences, flow style, comments.
@@ -179,32 +180,42 @@ def containsSub (p : Bytes) : Bytes → Bool
 def needsSingleQuoting (s : Bytes) : Bool :=
   s == b "?" || hasPrefix (b "? ") s || hasSuffix (b "<<") s || hasPrefix (b "...") s
 
+/-- `unicode.IsPrint` — a PARAMETER of the model (a large Unicode table of the Go library).
+No contract is assumed: every theorem holds for every predicate; the driver is given the real
+verdicts for the runes occurring in each case. -/
+abbrev IsPrint := Nat → Bool
+
+/-- a sample predicate for `example`s: printable ASCII only -/
+def asciiPrint : IsPrint := fun r => decide (0x20 ≤ r) && decide (r < 0x7F)
+
 /-- `yamlUnprintable`: `for i, r := range s` with the model's own UTF-8 decoder; an invalid
-byte shows up as (U+FFFD, width 1) -/
-def yamlUnprintableLoop : Nat → Bytes → Bool
+byte shows up as (U+FFFD, width 1).  Since /repo fb65e27 every rune other than the blank and
+U+FFFD that `unicode.IsPrint` rejects counts as unprintable too. -/
+def yamlUnprintableLoop (P : IsPrint) : Nat → Bytes → Bool
   | 0, _ => false
   | _, [] => false
   | fuel + 1, s@(_ :: _) =>
     let rw := decodeRune s
-    if rw.1 == 9 || rw.1 == 10 then yamlUnprintableLoop fuel (s.drop rw.2)
+    if rw.1 == 9 || rw.1 == 10 then yamlUnprintableLoop P fuel (s.drop rw.2)
     else if unprintableRune rw.1 then true
+    else if rw.1 != 32 && rw.1 != 0xFFFD && !P rw.1 then true
     else if rw.1 == 0xFFFD && rw.2 == 1 then true
-    else yamlUnprintableLoop fuel (s.drop (max rw.2 1))
+    else yamlUnprintableLoop P fuel (s.drop (max rw.2 1))
 
-def yamlUnprintable (s : Bytes) : Bool := yamlUnprintableLoop s.length s
+def yamlUnprintable (P : IsPrint) (s : Bytes) : Bool := yamlUnprintableLoop P s.length s
 
 /-- `blockLiteralSafe` as it was before /repo 05f5435 (history; no longer tied to the tree) -/
-def blockLiteralSafeOld (s : Bytes) : Bool :=
+def blockLiteralSafeOld (P : IsPrint) (s : Bytes) : Bool :=
   match s with
   | [] => false
   | c :: _ =>
     if c == 32 || c == 9 then false
     else if containsSub [32, 10] s || hasSuffix [32] s then false
-    else !yamlUnprintable s
+    else !yamlUnprintable P s
 
 /-- `blockLiteralSafe` (since /repo 05f5435 the first non-empty line must exist and must not
 start with a blank or tab: the block's indentation is detected from it) -/
-def blockLiteralSafe (s : Bytes) : Bool :=
+def blockLiteralSafe (P : IsPrint) (s : Bytes) : Bool :=
   match s with
   | [] => false
   | c :: _ =>
@@ -214,7 +225,7 @@ def blockLiteralSafe (s : Bytes) : Bool :=
       | f :: _ =>
         if f == 32 || f == 9 then false
         else if containsSub [32, 10] s || hasSuffix [32] s then false
-        else !yamlUnprintable s
+        else !yamlUnprintable P s
 
 inductive NumKind where
   | illegal | int | float
@@ -252,14 +263,19 @@ def decodesAsNonString (lx : Lex) (s : Bytes) : Bool :=
         else numberKind s != .illegal
       | t => t.nonString
 
-/-- `shouldQuote` -/
-def shouldQuote (lx : Lex) (s : Bytes) : Bool :=
+/-- the part of `shouldQuote` that does not look at printability: empty, legacy strings, the
+two regexps behind their byte pre-filter, `decodesAsNonString`, a tab -/
+def shouldQuoteCore (lx : Lex) (s : Bytes) : Bool :=
   match s with
   | [] => true
   | c :: _ =>
     if legacyStrings.contains s then true
     else if regexpStarts.contains c && (reUseQuote.matches s || reAnyOctal.matches s) then true
-    else decodesAsNonString lx s || s.contains 9 || yamlUnprintable s
+    else decodesAsNonString lx s || s.contains 9
+
+/-- `shouldQuote` (its last disjunct is `yamlUnprintable`; `yamlUnprintable ""` is false) -/
+def shouldQuote (P : IsPrint) (lx : Lex) (s : Bytes) : Bool :=
+  shouldQuoteCore lx s || yamlUnprintable P s
 
 /-- what the in-repo code does with a string scalar -/
 inductive Decision where
@@ -269,22 +285,23 @@ inductive Decision where
   | lib         -- handed to the library as a Go string: the library quotes or leaves plain
 deriving DecidableEq, Repr
 
-/-- `quoteScalar` (since /repo c5058c4 single quotes only when nothing needs escaping) -/
-def quoteScalar (lx : Lex) (s : Bytes) : Decision :=
-  if needsSingleQuoting s && !yamlUnprintable s then .single
-  else if shouldQuote lx s || needsSingleQuoting s then .double
+/-- `quoteScalar` (single quotes cannot escape anything: since /repo c5058c4 / ae37630 they
+are used only when the string holds nothing unprintable and no line feed) -/
+def quoteScalar (P : IsPrint) (lx : Lex) (s : Bytes) : Decision :=
+  if needsSingleQuoting s && !yamlUnprintable P s && !s.contains 10 then .single
+  else if shouldQuote P lx s || needsSingleQuoting s then .double
   else .lib
 
 /-- the string branch of `encodeScalar` (`multi` = the CUE literal is a multi-line one) -/
-def valueDecision (lx : Lex) (s : Bytes) (multi : Bool) : Decision :=
+def valueDecision (P : IsPrint) (lx : Lex) (s : Bytes) (multi : Bool) : Decision :=
   if s.contains 10 then
-    if multi && blockLiteralSafe s then .block else .double
-  else if multi && blockLiteralSafe s then .block
-  else quoteScalar lx s
+    if multi && blockLiteralSafe P s then .block else .double
+  else if multi && blockLiteralSafe P s then .block
+  else quoteScalar P lx s
 
 /-- key quoting in `encodeDecls` -/
-def keyDecision (lx : Lex) (s : Bytes) : Decision :=
-  match quoteScalar lx s with
+def keyDecision (P : IsPrint) (lx : Lex) (s : Bytes) : Decision :=
+  match quoteScalar P lx s with
   | .lib => if s.contains 10 then .double else .lib
   | d => d
 
@@ -299,9 +316,10 @@ def Decision.visible (libq : Bool) : Decision → Style
   | .block => .literal
   | .lib => if libq then .single else .plain
 
-def valueStyle (lx : Lex) (libq : Bool) (s : Bytes) (multi : Bool) : Style :=
-  (valueDecision lx s multi).visible libq
-def keyStyle (lx : Lex) (libq : Bool) (s : Bytes) : Style := (keyDecision lx s).visible libq
+def valueStyle (P : IsPrint) (lx : Lex) (libq : Bool) (s : Bytes) (multi : Bool) : Style :=
+  (valueDecision P lx s multi).visible libq
+def keyStyle (P : IsPrint) (lx : Lex) (libq : Bool) (s : Bytes) : Style :=
+  (keyDecision P lx s).visible libq
 
 /-- the yaml.v3 based encoder's own decision (internal/encoding/yaml/encode.go shouldQuote) -/
 def shouldQuoteV3 (s : Bytes) : Bool := legacyStrings.contains s || reUseQuote.matches s
